@@ -129,7 +129,9 @@ func cmdVerify(args []string) int {
 						}
 						fmt.Printf("      model: %s\n", strings.Join(ms, " "))
 					}
-					if *dump != "" {
+				}
+				if *dump != "" && (o.Status != "discharged" || *verbose) {
+					{
 						os.MkdirAll(*dump, 0o755)
 						f := fmt.Sprintf("%s/%s.smt2", *dump, strings.NewReplacer("/", "_", ":", "_", "{", "_", "}", "_", "#", "_", "*", "P", "(", "", ")", "").Replace(o.Ob.Name))
 						os.WriteFile(f, []byte(o.Script), 0o644)
